@@ -19,19 +19,51 @@ def guarded(fn):
         return {"error": type(e).__name__ + ": " + str(e)[:300]}
 
 
-def query(policy, pomdp, sl, al, beliefs):
+def representations(pomdp, sl, probs, which):
+    """every way a caller can legally hand the same belief to the policy.
+    which='qmdp': QMDPPolicy.action_value unpacks `ss, probs = b` (any pair of aligned sequences);
+    which='alpha': AlphaVectorPolicy._belief_to_vector accepts a Distribution (looked up by state), a
+    Belief (namedtuple) or a dense list/tuple in state_list order; ndarray is probed too (observation)."""
+    import numpy as np
     from msdm.core.pomdp.tabularpomdp import Belief
+    from msdm.core.distributions import DictDistribution
+    n = len(sl)
+    supp = [i for i in range(n) if probs[i] != 0]
+    perm = list(range(n))[::-1] if n > 1 else [0]
+    if n > 2:
+        perm = perm[1:] + perm[:1]
+    reps = {"dense": Belief(tuple(sl), tuple(probs)),
+            "support": Belief(tuple(sl[i] for i in supp), tuple(probs[i] for i in supp)),
+            "permuted": Belief(tuple(sl[i] for i in perm), tuple(probs[i] for i in perm))}
+    if which == "qmdp":
+        reps["pair_of_lists"] = ([sl[i] for i in perm], [probs[i] for i in perm])
+    else:
+        reps["dict"] = DictDistribution({sl[i]: probs[i] for i in range(n)})
+        reps["dict_support"] = DictDistribution({sl[i]: probs[i] for i in supp})
+        reps["list"] = list(probs)
+        reps["tuple"] = tuple(probs)
+        reps["ndarray"] = np.array(probs)
+    return reps
+
+
+def query(policy, pomdp, sl, al, beliefs, which):
     out = []
     for bq in beliefs:
         probs = tuple(fl(x) for x in bq)
-        b = Belief(tuple(sl), probs)
-
-        def one():
-            dist = policy.action_dist(b)
-            return {"value": fj(policy.value(b)),
-                    "action_values": [fj(policy.action_value(b, a)) for a in al],
-                    "dist": [fj(dist.prob(a)) for a in al]}
-        out.append(guarded(one))
+        res = None
+        for name, b in representations(pomdp, sl, probs, which).items():
+            def one(b=b):
+                dist = policy.action_dist(b)
+                return {"value": fj(policy.value(b)),
+                        "action_values": [fj(policy.action_value(b, a)) for a in al],
+                        "dist": [fj(dist.prob(a)) for a in al]}
+            r = guarded(one)
+            if name == "dense":
+                res = r
+                res["reps"] = {}
+            else:
+                res["reps"][name] = r
+        out.append(res)
     return out
 
 
@@ -96,7 +128,7 @@ def one(case, pl):
                 "n_calls": len(calls),
                 "last_call": calls[-1] if calls else None,
                 "first_call_belief_set_size": len(calls[0]["belief_set"]) if calls else 0,
-                "queries": query(r.policy, pomdp, sl, al, case["beliefs"])}
+                "queries": query(r.policy, pomdp, sl, al, case["beliefs"], "alpha")}
     res["pbvi"] = guarded(run_pbvi)
 
     # ---- QMDP ----
@@ -107,7 +139,7 @@ def one(case, pl):
             r = QMDP(mdp_solver=solver).plan_on(pomdp)
             Q = r.mdp_res.action_value
             return {"Q": [[fj(Q[s][a]) for a in al] for s in sl],
-                    "queries": query(r.policy, pomdp, sl, al, case["beliefs"])}
+                    "queries": query(r.policy, pomdp, sl, al, case["beliefs"], "qmdp")}
         res["qmdp"][name] = guarded(run_q)
     return res
 
